@@ -24,96 +24,96 @@ CHECKS = {
     "C01": {
         "level": "exploration",
         "tests": [
-            {"name": "TestC01Small", "quick": 3000, "thorough": 96000},
-            {"name": "TestC01Blocks", "quick": 40, "thorough": 1280},
-            {"name": "TestC01Wide", "quick": 15, "thorough": 480, "min_per_shard": 10},
+            {"name": "TestC01Small", "quick": 3000, "thorough": 576000},
+            {"name": "TestC01Blocks", "quick": 40, "thorough": 7680},
+            {"name": "TestC01Wide", "quick": 15, "thorough": 2880, "min_per_shard": 10},
             {"name": "TestC01Regress", "quick": 0},
         ],
         "assumptions": COMMON_ASSUMPTIONS,
     },
     "C02": {
         "level": "exploration",
-        "tests": fam("C02", (2500, 80000), (25, 800), (10, 320), regress=False),
+        "tests": fam("C02", (2500, 480000), (25, 4800), (10, 1920), regress=False),
         "assumptions": COMMON_ASSUMPTIONS,
     },
     "C03": {
         "level": "exploration",
-        "tests": [{"name": "TestC03", "quick": 4000, "thorough": 128000}, {"name": "TestC03Regress", "quick": 0}],
+        "tests": [{"name": "TestC03", "quick": 4000, "thorough": 768000}, {"name": "TestC03Regress", "quick": 0}],
         "assumptions": COMMON_ASSUMPTIONS,
     },
     "C04": {
         "level": "exploration",
-        "tests": fam("C04", (2000, 64000), (20, 640), (8, 256)),
+        "tests": fam("C04", (2000, 384000), (20, 3840), (8, 1536)),
         "assumptions": COMMON_ASSUMPTIONS,
     },
     "C06": {
         "level": "exploration",
-        "tests": fam("C06", (3000, 96000), (300, 9600)),
+        "tests": fam("C06", (3000, 576000), (300, 57600)),
         "assumptions": COMMON_ASSUMPTIONS,
     },
     "C05": {
         "level": "exploration",
-        "tests": [{"name": "TestC05Small", "quick": 8000, "thorough": 320000}, {"name": "TestC05Wide", "quick": 300, "thorough": 12000},
+        "tests": [{"name": "TestC05Small", "quick": 8000, "thorough": 1920000}, {"name": "TestC05Wide", "quick": 300, "thorough": 72000},
                   {"name": "TestC05Regress", "quick": 0}],
         "assumptions": COMMON_ASSUMPTIONS + ["Advance targets are > the last returned document and non-decreasing (API contract); ReplaceActual only before the first step, with a subset of ActualBitmap(), on a non-1-hit iterator"],
     },
     "C08": {
         "level": "exploration",
-        "tests": [{"name": "TestC08", "quick": 5000, "thorough": 160000}, {"name": "TestC08Regress", "quick": 0}, {"name": "TestC08RegressRange", "quick": 0}],
+        "tests": [{"name": "TestC08", "quick": 5000, "thorough": 960000}, {"name": "TestC08Regress", "quick": 0}, {"name": "TestC08RegressRange", "quick": 0}],
         "assumptions": COMMON_ASSUMPTIONS + ["range bounds are nil or non-empty with start <= end; automata implement the segment.Automaton contract"],
     },
     "C11": {
         "level": "exploration",
-        "tests": fam("C11", (3000, 96000), (60, 1920)),
+        "tests": fam("C11", (3000, 576000), (60, 11520)),
         "assumptions": COMMON_ASSUMPTIONS + ["the footer layout is taken from README.md"],
     },
     "C13": {
         "level": "exploration",
-        "tests": [{"name": "TestC13", "quick": 4000, "thorough": 128000}, {"name": "TestC13Regress", "quick": 0}],
+        "tests": [{"name": "TestC13", "quick": 4000, "thorough": 768000}, {"name": "TestC13Regress", "quick": 0}],
         "assumptions": COMMON_ASSUMPTIONS + ["an object handed back as prealloc is dead afterwards (aliasing is the caller's responsibility)"],
     },
     "C16": {
         "level": "exploration",
-        "tests": [{"name": "TestC16Small", "quick": 4000, "thorough": 128000}, {"name": "TestC16Wide", "quick": 30, "thorough": 960, "min_per_shard": 8},
+        "tests": [{"name": "TestC16Small", "quick": 4000, "thorough": 768000}, {"name": "TestC16Wide", "quick": 30, "thorough": 5760, "min_per_shard": 8},
                   {"name": "TestC16Regress", "quick": 0}],
         "assumptions": COMMON_ASSUMPTIONS + ["reported field length equals the sum of the field's term frequencies (the property's stated domain)"],
     },
     "C17": {
         "level": "exploration",
-        "tests": [{"name": "TestC17Small", "quick": 1200, "thorough": 38400}, {"name": "TestC17Wide", "quick": 30, "thorough": 640, "min_per_shard": 8}],
+        "tests": [{"name": "TestC17Small", "quick": 1200, "thorough": 230400}, {"name": "TestC17Wide", "quick": 30, "thorough": 3840, "min_per_shard": 8}],
         "assumptions": [COMMON_ASSUMPTIONS[0], COMMON_ASSUMPTIONS[2], "metamorphic: no reference model is involved, only observational equality of two merge results"],
     },
     "C18": {
         "level": "exploration",
-        "tests": [{"name": "TestC18", "quick": 6000, "thorough": 192000}, {"name": "TestC18Regress", "quick": 0}],
+        "tests": [{"name": "TestC18", "quick": 6000, "thorough": 1152000}, {"name": "TestC18Regress", "quick": 0}],
         "assumptions": COMMON_ASSUMPTIONS,
     },
     "C07": {
         "level": "exploration",
-        "tests": [{"name": "TestC07Small", "quick": 3000, "thorough": 96000}, {"name": "TestC07Wide", "quick": 150, "thorough": 4800}],
+        "tests": [{"name": "TestC07Small", "quick": 3000, "thorough": 576000}, {"name": "TestC07Wide", "quick": 150, "thorough": 28800}],
         "assumptions": COMMON_ASSUMPTIONS + ["document numbers passed to VisitDocumentValues are < Count()"],
     },
     "C12": {
         "level": "fault_enumeration",
-        "tests": [{"name": "TestC12Small", "quick": 40, "thorough": 1280, "min_per_shard": 20}, {"name": "TestC12Blocks", "quick": 3, "thorough": 96, "min_per_shard": 3}],
+        "tests": [{"name": "TestC12Small", "quick": 40, "thorough": 2560, "min_per_shard": 20}, {"name": "TestC12Blocks", "quick": 3, "thorough": 192, "min_per_shard": 3}],
         "assumptions": ["the injected writer is a conforming io.Writer (returns n < len(p) together with a non-nil error, fails forever afterwards)",
                         "the close channel is closed from inside the destination writer's Write, i.e. at byte granularity of what reaches the writer (coarser than the merger's own polls for large buffers)",
                         COMMON_ASSUMPTIONS[0]],
     },
     "C14": {
         "level": "exploration",
-        "tests": [{"name": "TestC14", "quick": 400, "thorough": 9600}, {"name": "TestC14", "quick": None, "thorough": 1600, "race": True, "max_shards": 8}],
+        "tests": [{"name": "TestC14", "quick": 400, "thorough": 19200}, {"name": "TestC14", "quick": None, "thorough": 3200, "race": True, "max_shards": 8}],
         "assumptions": [COMMON_ASSUMPTIONS[0], "whether a build really started from a recycled pool object is sampled through the verif hook just before the build (sync.Pool is per-P, so this is evidence, not control)",
                         "concurrent builders are scheduled by the Go runtime; interleavings are sampled"],
     },
     "C15": {
         "level": "exploration",
-        "tests": [{"name": "TestC15", "quick": 1500, "thorough": 48000}],
+        "tests": [{"name": "TestC15", "quick": 1500, "thorough": 288000}],
         "assumptions": COMMON_ASSUMPTIONS + ["bitmap representation equality is judged on roaring's serialised bytes"],
     },
     "C19": {
         "level": "fault_enumeration",
-        "tests": [{"name": "TestC19Small", "quick": 120, "thorough": 3840, "min_per_shard": 20}, {"name": "TestC19Blocks", "quick": 10, "thorough": 320, "min_per_shard": 5},
+        "tests": [{"name": "TestC19Small", "quick": 120, "thorough": 11520, "min_per_shard": 20}, {"name": "TestC19Blocks", "quick": 10, "thorough": 960, "min_per_shard": 5},
                   {"name": "TestC19Regress", "quick": 0}],
         "assumptions": ["storage faults are injected by swapping the unexported io.ReaderAt inside segment.Data (reflect+unsafe, self-tested at start-up) before ice.Load; every ReadAt from index k on fails",
                         "faults during ice.Load itself are not injected (Load is not a read call on a segment)",
@@ -123,12 +123,12 @@ CHECKS = {
     "C09": {
         "level": "exploration",
         "tests": [
-            {"name": "TestC09ConcSmall", "quick": 300, "thorough": 16000, "race": True, "env": {"GORACE": "halt_on_error=1"}, "min_per_shard": 100},
-            {"name": "TestC09ConcBlocks", "quick": 120, "thorough": 4000, "race": True, "env": {"GORACE": "halt_on_error=1"}, "min_per_shard": 50},
-            {"name": "TestC09NestSmall", "quick": 600, "thorough": 10000},
-            {"name": "TestC09NestBlocks", "quick": 600, "thorough": 10000},
+            {"name": "TestC09ConcSmall", "quick": 300, "thorough": 32000, "race": True, "env": {"GORACE": "halt_on_error=1"}, "min_per_shard": 100},
+            {"name": "TestC09ConcBlocks", "quick": 120, "thorough": 8000, "race": True, "env": {"GORACE": "halt_on_error=1"}, "min_per_shard": 50},
+            {"name": "TestC09NestSmall", "quick": 600, "thorough": 20000},
+            {"name": "TestC09NestBlocks", "quick": 600, "thorough": 20000},
             {"name": "TestC09Regress", "quick": 0},
-            {"name": "TestC09NestBlocks", "quick": None, "thorough": 2000, "race": True, "env": {"GORACE": "halt_on_error=1"}, "max_shards": 4},
+            {"name": "TestC09NestBlocks", "quick": None, "thorough": 4000, "race": True, "env": {"GORACE": "halt_on_error=1"}, "max_shards": 4},
         ],
         "assumptions": ["interleavings are SAMPLED by the Go scheduler (GOMAXPROCS drawn from {2,4,16}, start barrier, drawn Gosched points), not enumerated; the claim is 'no race report and no wrong result on the generated concurrent programs', not race freedom",
                         "the Go race detector is happens-before based: it reports two unsynchronised accesses that occurred in one run whatever their order, so detection depends mainly on which operations run concurrently, which the generator controls",
@@ -138,9 +138,9 @@ CHECKS = {
     "C10": {
         "level": "exploration",
         "tests": [{"name": "TestC10Golden", "quick": 0},
-                  {"name": "TestC10Small", "quick": 1500, "thorough": 48000},
-                  {"name": "TestC10Blocks", "quick": 40, "thorough": 1280, "min_per_shard": 20},
-                  {"name": "TestC10Wide", "quick": 15, "thorough": 480, "min_per_shard": 8}],
+                  {"name": "TestC10Small", "quick": 1500, "thorough": 288000},
+                  {"name": "TestC10Blocks", "quick": 40, "thorough": 7680, "min_per_shard": 20},
+                  {"name": "TestC10Wide", "quick": 15, "thorough": 2880, "min_per_shard": 8}],
         "assumptions": ["the reference is harness/refice: the pinned ice sources at commit 76983be with only the package clause renamed (plus one added export file), compiled into the harness",
                         "facets where the reference itself is defective are excluded by construction and counted in the labels (excluded:*)",
                         "a format change confined to a structure none of the three scenario families produces would pass",
